@@ -35,7 +35,9 @@ TECHNIQUE = ("Coq proof: (1) index discipline, key uniqueness and provenance as 
              "of the parse-loop invariant; (2) the un-parser theorem: executable Gallina render/apply_items/occs/run_inv for "
              "invocation trees, a simulation lemma per item kind (token loop = meaning of the item, for all states and any rest), "
              "induction over the item list and over the command tree up to parse_top, conservation via C07's abstract fold and "
-             "C06's phase frames, the index rule of react folded over the occurrences) + extracted-model/implementation "
+             "C06's phase frames, the index rule of react folded over the occurrences; third pass: the same simulation for the lifted "
+             "class with new step lemmas for = spellings, terminators and MaybeHyphenValue exits, composition with C09's closed form "
+             "of the globals merge, refutation witness for the positional pending bound) + extracted-model/implementation "
              "correspondence on the complete matches + python un-parser")
 LEVEL_TEXT = ("Machine-checked theorems (Coq 8.16, closed under the global context).  (a) For every command accepted by the "
               "validity gate (class: no short flag-subcommands) and every token list, at every level: pairwise distinct keys, "
@@ -51,12 +53,21 @@ LEVEL_TEXT = ("Machine-checked theorems (Coq 8.16, closed under the global conte
               "occurrence groups reported per argument are exactly the invocation's: nothing dropped, duplicated, reordered, "
               "invented or moved; split only by the declared delimiter); the subcommand chain is kept; the reported indices are "
               "the closed form denote_idx (one per stored value, one for an option name given by flag) and the index events of a "
-              "level strictly increase in argv order.  Non-vacuity examples exercise every item kind and spelling.")
-LEVEL_NOTE = ("Outside the conventional class (-- directly after an open multi-valued positional run, dont_delimit_trailing_values, last, trailing_var_arg, terminators, require_equals, hyphen "
-              "values, low-index multiples, allow_missing_positional, flag/external subcommands, ignore_errors, "
+              "level strictly increase in argv order.  Non-vacuity examples exercise every item kind and spelling.  "
+              "(c) Third pass: positional lookup is by key (characterisation of get_pos, invariance under any permutation of the "
+              "declarations); delimiter splitting is byte level for all byte strings and keeps every piece, OsString values are never "
+              "rejected; the whole of (b) (loop, level, tree, parse_top, conservation, indices) for the lifted class convx/wfx_items/"
+              "wfx_inv: require_equals (spelled --o=v / -o=v), value terminators incl. the terminator token, hyphen and negative-"
+              "number values of options; parse_top of a rendered tree WITH global arguments = the meaning with C09's final map "
+              "inserted at every level (closed form, old and lifted class); pending buffer: opens empty, grows by one token while "
+              "below max, every accepted occurrence has min <= #values <= max (the literal bound is refuted for multi-valued "
+              "positionals, crate agrees: TooManyValues).")
+LEVEL_NOTE = ("Outside the (lifted) class (-- directly after an open multi-valued positional run, dont_delimit_trailing_values, last, trailing_var_arg, hyphen "
+              "values of positionals, values after -- for commands with terminators/require_equals/hyphen options, require_equals options given without a value, low-index multiples, allow_missing_positional, flag/external subcommands, ignore_errors, "
               "args_conflicts_with_subcommands) conservation is checked by the python un-parser / model "
-              "comparison only; conv is stated on the built command (decidable by computation); the composition with the global-"
-              "value merge is proved only for trees without globals (the merge itself is C09's).  Trusted: Coq kernel, extraction, "
+              "comparison only; conv/convx are stated on the built command (decidable by computation; of the bridge from the command as "
+              "written only the per-argument and settings steps are proved, C02_bridge_*_partial); the pending-buffer bound is proved "
+              "per loop step, not yet as one invariant of the loop.  Trusted: Coq kernel, extraction, "
               "OCaml driver, Rust harness, generators.")
 
 VALS = [b"v", b"w", b"x1", b"1", b"0", b"zz", b"v=w", b"a.b", "é".encode(), b"3", b"=", b"e=", b"long-value", b"x y"]
@@ -474,8 +485,46 @@ def coq_example_cases():
     exp3 = collections.OrderedDict([
         (b"q", {"occ": [[b"true"]], "idx": [1]}), (b"m", {"occ": [[b"A"]], "idx": [3]}),
         (b"f", {"occ": [[b"F"]], "idx": [4]}), (b"r", {"occ": [[b"-x", b"R"]], "idx": [5, 6]})])
+    # UnparseLift.v (C02_positional_order_nonvacuous): the index-2 positional is declared first; line A B C
+    order = {"name": b"p", "args": [arg(b"1", index=1), arg(b"2", index=2, num=(1, None))], "decl_order": [1, 0],
+             "groups": [], "subs": [], "settings": [], "aliases": []}
+    toks4 = [b"A", b"B", b"C"]
+    exp4 = collections.OrderedDict([(b"1", {"occ": [[b"A"]], "idx": [1]}), (b"2", {"occ": [[b"B", b"C"]], "idx": [2, 3]})])
+    # UnparseLift.v (C02_osstring_nonvacuous): OsString values that are not UTF-8, every (empty) piece kept
+    osc = {"name": b"p", "args": [arg(b"m", short="m", long=b"mu", action="append", num=(1, 3), delim=",", vp="os"),
+                                  arg(b"f", vp="os")], "groups": [], "subs": [], "settings": [], "aliases": []}
+    toks5 = [b"--mu", b"a,,b", b",a", b"b,", b"--mu=\xff,\xc3", b"-m\xe9", b"g\xe9n"]
+    exp5 = collections.OrderedDict([
+        (b"m", {"occ": [[b"a", b"", b"b", b"", b"a", b"b", b""], [b"\xff", b"\xc3"], [b"\xe9"]],
+                "idx": [2, 3, 4, 5, 6, 7, 8, 10, 11, 13]}),
+        (b"f", {"occ": [[b"g\xe9n"]], "idx": [14]})])
+    # UnparseXExamples.v (C02_unparse_x_nonvacuous, C02_terminator_nonvacuous): require_equals, terminator, hyphen /
+    # negative-number values
+    xrun = {"name": b"run", "aliases": [], "args": [arg(b"k", short="k", long=b"key", action="set", flags={"reqeq"})],
+            "groups": [], "subs": [], "settings": []}
+    xc = {"name": b"p", "args": [
+        arg(b"v", short="v", action="count"),
+        arg(b"r", short="r", long=b"req", action="set", flags={"reqeq"}),
+        arg(b"t", short="t", long=b"term", action="append", num=(1, 3), term=b";"),
+        arg(b"y", short="y", long=b"hy", action="set", num=(2, 2), flags={"hyphen"}),
+        arg(b"n", short="n", long=b"num", action="set", flags={"negnum"}),
+        arg(b"f")], "groups": [], "subs": [xrun], "settings": ["args_override_self"], "aliases": []}
+    toks6 = [b"--req=A", b"-vr=B", b"--term", b"X", b"Y", b"--hy", b"-x", b"--", b"--num", b"-5", b"F", b"-t", b"Z",
+             b"--req==", b"-y", b"--num", b"--term", b"run", b"--key=K"]
+    exp6 = [(collections.OrderedDict([
+        (b"v", {"occ": [[b"1"]], "idx": [3]}), (b"r", {"occ": [[b"="]], "idx": [18]}),
+        (b"t", {"occ": [[b"X", b"Y"], [b"Z"]], "idx": [7, 8, 16]}),
+        (b"y", {"occ": [[b"--num", b"--term"]], "idx": [20, 21]}), (b"n", {"occ": [[b"-5"]], "idx": [13]}),
+        (b"f", {"occ": [[b"F"]], "idx": [14]})]), b"run"),
+        (collections.OrderedDict([(b"k", {"occ": [[b"K"]], "idx": [2]})]), None)]
+    xc1 = dict(xc, subs=[])
+    toks7 = [b"--term", b"X", b";", b"F", b"-v"]
+    exp7 = collections.OrderedDict([(b"t", {"occ": [[b"X"]], "idx": [2]}), (b"f", {"occ": [[b"F"]], "idx": [3]}),
+                                    (b"v", {"occ": [[b"1"]], "idx": [4]})])
     out = []
-    for c, toks, lv in ((one, toks1, [(exp1, None)]), (two, toks2, exp2), (one, toks3, [(exp3, None)])):
+    for c, toks, lv in ((one, toks1, [(exp1, None)]), (two, toks2, exp2), (one, toks3, [(exp3, None)]),
+                        (order, toks4, [(exp4, None)]), (osc, toks5, [(exp5, None)]), (xc, toks6, exp6),
+                        (xc1, toks7, [(exp7, None)])):
         argv = [b"p"] + toks
         base = gen_cmd.cmd_sx(c)
         body = base[:-1] + " (x-expect %s %s))" % (guard(base, argv), expect_sx(lv))
